@@ -701,3 +701,10 @@ def unsigned_sub(db, ctx):
 def field_source_reeval(db, ctx):
     from . import C05
     C05.field_source(db, ctx)
+
+
+@rule("C06.len-prefix", "every string length the compiler accepts is written in a form the loader reads back as the same length (re-evaluation of C05.len-prefix: "
+                        "the one-byte form is used only below the loader's two-byte threshold)")
+def len_prefix_reeval(db, ctx):
+    from . import C05
+    C05.len_prefix(db, ctx)
